@@ -5,7 +5,7 @@
    once with keystream index q - dstart if dstart <= q < dstart + didx, and never otherwise. *)
 From Coq Require Import NArith List Bool Arith Lia.
 Import ListNotations.
-From LTV.C06 Require Import ParamsGen Model ProofsInv.
+From LTV.C06 Require Import ParamsProbe Model ProofsInv.
 
 Definition dcell : cell := mkCell Opq [].
 Definition o0 (s : hst) := nread s - L s.
